@@ -1,15 +1,10 @@
 package main
 
 import (
-	"bufio"
-	"flag"
 	"fmt"
-	"math/rand"
 	"os"
 	"strconv"
 	"strings"
-
-	"github.com/dekarrin/rosed"
 )
 
 func extra(cmd string, args []string) {
@@ -32,14 +27,6 @@ func extra(cmd string, args []string) {
 	}
 }
 
-// representatives of the 15 classes, in the order CR LF Control Extend ZWJ RI
-// Prepend SpacingMark L V T LV LVT ExtPict Other
-var classReps = [][]rune{
-	{0x0D}, {0x0A}, {0x01, 0x200B, 0xAD}, {0x0301, 0xFE0F, 0x1F3FB, 0x200C}, {0x200D}, {0x1F1E6, 0x1F1FF},
-	{0x0600, 0x110BD}, {0x0903, 0x0E33}, {0x1100, 0xA960}, {0x1161, 0xD7B0}, {0x11A8, 0xD7CB},
-	{0xAC00, 0xAC1C}, {0xAC01, 0xD7A3}, {0x1F600, 0x00A9, 0x2764}, {0x61, 0x20, 0x4E00, 0x10FFFF},
-}
-
 func runesTok(rs []rune) string {
 	if len(rs) == 0 {
 		return "-"
@@ -59,201 +46,4 @@ func intsTok(xs []int) string {
 		p[i] = strconv.Itoa(x)
 	}
 	return strings.Join(p, ",")
-}
-
-// one line per string: runes, Split ends, per-index shouldBreakAfter bits, CharCount via the public API
-func emitSplit(w *bufio.Writer, rs []rune) {
-	ends := rosed.VerifSplit(rs)
-	var sb strings.Builder
-	for i := range rs {
-		if rosed.VerifShouldBreakAfter(rs, i) {
-			sb.WriteByte('1')
-		} else {
-			sb.WriteByte('0')
-		}
-	}
-	if len(rs) == 0 {
-		sb.WriteByte('-')
-	}
-	valid := true
-	for _, r := range rs {
-		if r < 0 || r > 0x10FFFF || (r >= 0xD800 && r <= 0xDFFF) {
-			valid = false
-		}
-	}
-	cc := -1
-	if valid {
-		cc = rosed.Edit(string(rs)).CharCount()
-	}
-	fmt.Fprintf(w, "%s %s %s %d\n", runesTok(rs), intsTok(ends), sb.String(), cc)
-}
-
-func cmdSplitX(args []string) {
-	fs := flag.NewFlagSet("splitx", flag.ExitOnError)
-	maxLen := fs.Int("len", 4, "exhaustive up to this length")
-	nrand := fs.Int("rand", 2000, "random long strings")
-	seed := fs.Int64("seed", 1, "seed")
-	out := fs.String("out", "split.txt", "output")
-	fs.Parse(args)
-	f, err := os.Create(*out)
-	must(err)
-	w := bufio.NewWriter(f)
-	r := rand.New(rand.NewSource(*seed))
-	// exhaustive over class strings, with the first and with a random representative
-	idx := make([]int, *maxLen)
-	var rec func(n, k int)
-	rec = func(n, k int) {
-		if k == n {
-			a := make([]rune, n)
-			b := make([]rune, n)
-			for i := 0; i < n; i++ {
-				reps := classReps[idx[i]]
-				a[i] = reps[0]
-				b[i] = reps[r.Intn(len(reps))]
-			}
-			emitSplit(w, a)
-			if n > 0 {
-				emitSplit(w, b)
-			}
-			return
-		}
-		for c := 0; c < len(classReps); c++ {
-			idx[k] = c
-			rec(n, k+1)
-		}
-	}
-	for n := 0; n <= *maxLen; n++ {
-		rec(n, 0)
-	}
-	// random long strings biased towards RI runs, Extend runs, ZWJ chains, Hangul
-	for i := 0; i < *nrand; i++ {
-		n := 1 + r.Intn(300)
-		rs := make([]rune, 0, n)
-		for len(rs) < n {
-			switch r.Intn(8) {
-			case 0:
-				for k := r.Intn(7); k > 0; k-- {
-					rs = append(rs, classReps[5][r.Intn(2)])
-				}
-			case 1:
-				rs = append(rs, classReps[13][r.Intn(3)])
-				for k := r.Intn(4); k > 0; k-- {
-					rs = append(rs, classReps[3][r.Intn(4)])
-				}
-				if r.Intn(2) == 0 {
-					rs = append(rs, 0x200D)
-				}
-			case 2:
-				for k := 1 + r.Intn(4); k > 0; k-- {
-					c := 8 + r.Intn(5)
-					rs = append(rs, classReps[c][r.Intn(len(classReps[c]))])
-				}
-			case 3:
-				rs = append(rs, rune(r.Intn(0x110000)))
-			default:
-				c := r.Intn(len(classReps))
-				rs = append(rs, classReps[c][r.Intn(len(classReps[c]))])
-			}
-		}
-		emitSplit(w, rs)
-	}
-	// arbitrary rune values, including invalid ones
-	for i := 0; i < 200; i++ {
-		n := 1 + r.Intn(12)
-		rs := make([]rune, n)
-		for j := range rs {
-			switch r.Intn(4) {
-			case 0:
-				rs[j] = -rune(r.Intn(1000)) - 1
-			case 1:
-				rs[j] = 0x110000 + rune(r.Intn(1000))
-			case 2:
-				rs[j] = 0xD800 + rune(r.Intn(0x800))
-			default:
-				rs[j] = rune(r.Intn(0x110000))
-			}
-		}
-		emitSplit(w, rs)
-	}
-	must(w.Flush())
-	f.Close()
-}
-
-// probe contexts: each is (prefix, suffix) placed around the code point under test
-var probeCtx = [][2][]rune{
-	{{0x0D}, {}}, {{}, {0x0A}}, {{'a'}, {}}, {{}, {'a'}}, {{0x1100}, {}}, {{0x1161}, {}}, {{0x11A8}, {}}, {{}, {0x1161}}, {{}, {0x11A8}},
-	{{0x1F600, 0x200D}, {}}, {{}, {0x200D, 0x1F600}}, {{0x1F1E6}, {}}, {{}, {0x1F1E6}}, {{}, {0x0301}}, {{0x0600}, {}},
-	{{}, {0x0301, 0x200D, 0x1F600}}, {{0x1F600}, {0x200D, 0x1F600}}, {{0xAC00}, {}}, {{0xAC01}, {}}, {{0x1F1E6, 0x1F1E7}, {0x1F1E8}},
-}
-
-func probeSig(r rune) string {
-	var sb strings.Builder
-	for _, pc := range probeCtx {
-		rs := append(append(append([]rune{}, pc[0]...), r), pc[1]...)
-		for i := 0; i+1 < len(rs); i++ {
-			if rosed.VerifShouldBreakAfter(rs, i) {
-				sb.WriteByte('1')
-			} else {
-				sb.WriteByte('0')
-			}
-		}
-		ends := rosed.VerifSplit(rs)
-		sb.WriteString(strconv.Itoa(len(ends)))
-		sb.WriteByte('.')
-	}
-	return sb.String()
-}
-
-// cmdProbes prints, for every code point (and some out-of-range values), how it joins with the probe characters
-func cmdProbes(args []string) {
-	fs := flag.NewFlagSet("probes", flag.ExitOnError)
-	out := fs.String("out", "probes.txt", "output")
-	all := fs.Bool("all", false, "every code point (otherwise: every code point in a table, 16 around every class change, block ends, a random sample)")
-	seed := fs.Int64("seed", 1, "seed")
-	fs.Parse(args)
-	sel := make([]bool, 0x110000)
-	if *all {
-		for i := range sel {
-			sel[i] = true
-		}
-	} else {
-		prev := uint32(0)
-		for r := 0; r <= 0x10FFFF; r++ {
-			b := rosed.VerifClassBits(rune(r))
-			if b != 0 {
-				sel[r] = true
-			}
-			if b != prev || r%0x100 == 0 {
-				for k := r - 16; k <= r+16; k++ {
-					if k >= 0 && k <= 0x10FFFF {
-						sel[k] = true
-					}
-				}
-			}
-			prev = b
-		}
-		rr := rand.New(rand.NewSource(*seed))
-		for i := 0; i < 30000; i++ {
-			sel[rr.Intn(0x110000)] = true
-		}
-	}
-	f, err := os.Create(*out)
-	must(err)
-	w := bufio.NewWriter(f)
-	// the probe contexts themselves, for the model side
-	fmt.Fprintf(w, "CTX %d", len(probeCtx))
-	for _, pc := range probeCtx {
-		fmt.Fprintf(w, " %s %s", runesTok(pc[0]), runesTok(pc[1]))
-	}
-	fmt.Fprintln(w)
-	for r := rune(0); r <= 0x10FFFF; r++ {
-		if sel[r] {
-			fmt.Fprintf(w, "%d %s\n", r, probeSig(r))
-		}
-	}
-	for _, r := range []rune{-1, -2, -128, 0x110000, 0x110001, 0x7FFFFFFF, -0x80000000} {
-		fmt.Fprintf(w, "%d %s\n", r, probeSig(r))
-	}
-	must(w.Flush())
-	f.Close()
 }
